@@ -12,8 +12,12 @@ import json
 
 from . import core
 
-JUNK_POOL = [" ", "(", ")", "1", "2", "0", "_", ",", "\t", ".", "-", "+", "*", "/", "[", "]", ">", "'", '"', "#", "  "]
-MODEL_ALPHABET = [chr(c) for c in range(32, 127)] + ["\t", "\n", "≤", "…"]
+JUNK_POOL = [" ", "(", ")", "1", "2", "0", "_", ",", "\t", ".", "-", "+", "*", "/", "[", "]", ">", "'", '"', "#", "  ",
+             "\n", "\r", "\x0b", "\x0c", "\x00", "\x07", "\x1b", "\x7f", "@", "~", "\\"]
+# 0x1c-0x1f are white space for str.strip() but not for the regex module's \s: the model has ONE notion of white space
+# (9-13, 32), so these four separators stay outside the alphabet of the arbitrary stream (they are exercised as junk, where
+# both readings agree, and in the implementation-only Unicode stream)
+MODEL_ALPHABET = [chr(c) for c in range(0, 128) if not 0x1C <= c <= 0x1F] + ["≤", "…"]
 
 
 def real_call(np_mod, cs, s):
@@ -78,6 +82,13 @@ def run(ctx):
             for pre, post, neg in decorations:
                 cases.append(("abbreviations×decorations", pre + s + post, ("ok", k, neg), False))
 
+        # 1b. "adding the word not" (manual): the word may be separated by any ASCII white space, `!` may be surrounded by it
+        ws_markers = [("not\t", ""), ("not\n", ""), ("not  ", ""), ("not \t ", ""), ("NOT\t", ""), ("", "\tnot"), ("", "\nnot"),
+                      ("", "  not"), ("", " \t NOT"), ("is not\t", ""), ("\t!", ""), ("!\t", ""), ("  !", ""), (" ! ", ""), ("\n!\n", "")]
+        for k in keys:
+            for pre, post in rng.sample(ws_markers, 4):
+                cases.append(("keys×white-space variants of the negation markers", pre + k + post, ("ok", k, True), False))
+
         # 2. formula spellings with junk (the theorem C16_formula quantifies over all of them)
         n_styles = 3 if ctx.tier == "quick" else 200
         reqs, meta = [], []
@@ -100,9 +111,10 @@ def run(ctx):
         for (k, style), r in zip(meta, rendered):
             assert r["junkOk"] and r["balanced"], (k, style)
             pre, post, neg = rng.choice(decorations)
-            # junk directly after a leading "!" or around "is"/"not" is outside what the manual spells out
-            # except for spaces; keep the decoration only when the adjacent junk is blank or empty.
-            if (pre and style["junk"][0].strip(" ") != "") or (post and style["junk"][7].strip(" ") != ""):
+            # the theorems (C16_formula_decorated…) cover ANY junk next to a decoration, control characters included:
+            # so does the correspondence (one case in five keeps the former restriction to blank junk, for the density
+            # of plainly readable spellings)
+            if rng.random() < 0.2 and ((pre and style["junk"][0].strip(" ") != "") or (post and style["junk"][7].strip(" ") != "")):
                 pre, post, neg = "", "", False
             cases.append(("formula×junk×ops×index×case×decoration", pre + r["s"] + post, ("ok", k, neg), False))
             ctx.dist("formula:deco=" + repr((pre, post)))
